@@ -126,6 +126,8 @@ func init() {
 			out.Emit("cfg clp -", "ok", "cfg", false)
 		}
 
+		drawUpperHabit(rng)
+		out.Extra["upper_habit_accounts"] = len(upperHabit)
 		cases := mkCases(app, addrs)
 		out.Extra["handlers"] = len(cases)
 
@@ -140,10 +142,14 @@ func init() {
 					}
 				}
 			}
+			signerStr := signer.String()
+			if k%5 == 3 {
+				signerStr = upperOf(signer) // the Signer field in its upper-case spelling: the same account
+			}
 			cctx, write := ctx.CacheContext()
 			before := hashStores(cctx, keys)
 			res := protect(func() string {
-				msg := hc.build(cctx, signer.String(), k)
+				msg := hc.build(cctx, signerStr, k)
 				h := app.MsgServiceRouter().Handler(msg) // the route baseapp itself uses
 				if h == nil {
 					panic("no route for " + sdk.MsgTypeURL(msg))
@@ -157,7 +163,7 @@ func init() {
 			if res == "ok" {
 				write()
 			}
-			op := fmt.Sprintf("msg %s %s %s", hc.module, hc.name, signer.String())
+			op := fmt.Sprintf("msg %s %s %s", hc.module, hc.name, signerStr)
 			if hc.payload != nil {
 				r, a := hc.payload(k)
 				op += " " + r + " " + a
@@ -165,12 +171,21 @@ func init() {
 			cls := fmt.Sprintf("%s.%s.%s", hc.module, hc.name, res)
 			// the chk line comes first: the predicate is judged against the role stores the message met,
 			// the msg line then moves the model's role table
-			out.Emit(fmt.Sprintf("chk c08.guard.%s.%s tag=auth.%s.%s %s %s %s %s %s", hc.module, hc.name, hc.module, hc.name, hc.module, hc.name, signer.String(), res, b2s(changed)),
+			out.Emit(fmt.Sprintf("chk c08.guard.%s.%s tag=auth.%s.%s %s %s %s %s %s", hc.module, hc.name, hc.module, hc.name, hc.module, hc.name, signerStr, res, b2s(changed)),
 				"true", "chk.guard", false)
 			if !hc.lenient {
 				out.Emit(op, res, cls, true)
 			} else {
 				out.Hist[cls+".lenient"]++
+			}
+			// "removing a role takes effect for the very next message", judged on the implementation: after an accepted
+			// RemoveAccount(role, spelling) ask the real keeper whether the account that spelling denotes still holds the role
+			if hc.name == "RemoveAccount" && res == "ok" {
+				role, raw := hc.payload(k)
+				if acc, err := sdk.AccAddressFromBech32(raw); err == nil {
+					still := app.AdminKeeper.IsAdminAccount(ctx, admintypes.AdminType(admintypes.AdminType_value[role]), acc)
+					out.Emit(fmt.Sprintf("chk c08.removed tag=auth.admin.RemoveAccount.stillholds %s %s %s", role, raw, b2s(still)), "true", "chk.removed", false)
+				}
 			}
 		}
 
@@ -187,6 +202,30 @@ func init() {
 		}
 		// phase 2: the table evolves; after every AddAccount / RemoveAccount attempt, a burst of messages
 		// whose signers include the account just granted / revoked
+		// directed: grant / use / remove / use, for an account named in upper case (12) and one named in lower case (11);
+		// k = roleIndex + 6*accountIndex selects the payload; MARGIN is role 5, UpdatePools is a MARGIN handler
+		var updatePools handlerCase
+		for _, hc := range cases {
+			if hc.name == "UpdatePools" {
+				updatePools = hc
+			}
+		}
+		for _, acct := range []int{12, 11} {
+			kk := 5 + 6*acct
+			run(cases[0], addrs[10], kk)          // AddAccount(MARGIN, acct) by an ADMIN
+			run(updatePools, addrs[acct], 6*acct) // use
+			run(cases[1], addrs[10], kk)          // RemoveAccount(MARGIN, acct), same spelling
+			run(updatePools, addrs[acct], 6*acct) // the very next message of acct
+		}
+		if replay == "mixedspelling" {
+			// Observation (not part of the default run): granted in lower case, removed in upper case
+			upperHabit[11] = false
+			run(cases[0], addrs[10], 5+6*11)
+			upperHabit[11] = true
+			run(cases[1], addrs[10], 5+6*11)
+			upperHabit[11] = false
+			run(updatePools, addrs[11], 6*11)
+		}
 		for out.N < n {
 			k++
 			var hc handlerCase
@@ -215,9 +254,9 @@ func init() {
 // Spellings.  bech32 is case-insensitive as long as the case is not mixed: "SIF1…" decodes to the same account as
 // "sif1…", but AccAddress.String() always yields the lower-case form.  The role table of x/admin is keyed by the
 // string it is given, so spellings are a dimension of the matrix:
-//   * upperHabit: accounts that are ALWAYS named in upper case in AddAccount / RemoveAccount payloads (one spelling per
+//   - upperHabit: accounts that are ALWAYS named in upper case in AddAccount / RemoveAccount payloads (one spelling per
 //     account and history; only accounts without a set-up entry, which are stored canonically);
-//   * other address-typed payload fields and the Signer field itself use the upper-case form now and then.
+//   - other address-typed payload fields and the Signer field itself use the upper-case form now and then.
 var upperHabit = map[int]bool{}
 
 func upperOf(a sdk.AccAddress) string { return strings.ToUpper(a.String()) }
